@@ -144,5 +144,9 @@ CLAIMED["C13"]["note"] = "Trusted: Coq kernel; Spec/PatchFlags.v as the reading 
 CLAIMED["C13"]["technique"] = "Coq proofs (fold invariant over the attribute list; stack invariant over the nested AST) + patch-flag and slot-flag oracles on real outputs + view correspondence"
 CLAIMED["C03"]["text"] += " On the scope stream the binding analysis decides that the `_slot` temporary of a call child is bound where the slot expression uses it."
 CLAIMED["C17"]["note"] = TYPES_NOTE + " Known findings: bigint_literal (pinned by a fixture), union_with_any, empty_object_in_union, indexed_access_inherited_key, unresolved_indexed_access_in_union."
+CLAIMED["C14"]["text"] += (" C14_mergeProps_only_spread_or_repeat: an attribute list without a spread, without an `on`/`nativeOn` object under transformOn and in which no class / style / listener key is produced twice "
+                           "is lowered identically (props, flags, dynamic-prop list, directives, slots, state) with mergeProps on and off.")
+CLAIMED["C14"]["note"] = "serde/serde_json/regex are trusted libraries exercised, not verified; resolveType non-interference is decided by paired runs (the hooks are the identity off a defineComponent call, C20_only_vue)."
+CLAIMED["C15"]["text"] += " C15_pragma_module_wide: visiting ANY node leaves the pragma unchanged (induction over the whole traversal, hooks as hypotheses), so every element of a module is lowered with the same factory."
 
 NOT_CLAIMED = {}
